@@ -192,6 +192,7 @@ pub struct Interp {
     multi_dead: BTreeSet<u32>,
     dead_since_maintain: BTreeSet<u32>,
     any_death: bool,
+    readers: Vec<Option<ReaderId<specs::storage::ComponentEvent>>>,
 }
 
 fn v(prop: &str, sig: &str, msg: String) -> Violation {
@@ -256,6 +257,22 @@ fn res_builder_with<'a, C: ZooComp>(
     let id = c.ident();
     let mut st = world.write_storage::<C>();
     (b.with(c, &mut st), id)
+}
+
+fn st_join_items<C: ZooComp>(world: &World) -> Vec<(u32, u64, u32)> {
+    let ents = world.entities();
+    let st = world.read_storage::<C>();
+    (&ents, &st).join().map(|(e, c)| (e.id(), c.ident().0, c.ident().1)).collect()
+}
+
+fn st_events<C: crate::stoseq::Caps>(world: &World, r: &mut ReaderId<specs::storage::ComponentEvent>) -> Vec<specs::storage::ComponentEvent> {
+    let st = world.read_storage::<C>();
+    C::read_events(&st, r)
+}
+
+fn st_register_reader<C: crate::stoseq::Caps>(world: &World) -> Option<ReaderId<specs::storage::ComponentEvent>> {
+    let mut st = world.write_storage::<C>();
+    C::register_reader(&mut st)
 }
 
 fn st_mask<C: ZooComp>(world: &World) -> Vec<u32> {
@@ -547,7 +564,12 @@ impl Interp {
             with_kind!(*k, register_path(&mut world, *path));
         }
         let n = kinds.len();
+        let readers = kinds
+            .iter()
+            .map(|k| if transcript { with_kind!(*k, st_register_reader(&world)) } else { None })
+            .collect();
         Interp {
+            readers,
             world: Some(world),
             kinds: Arc::new(kinds),
             handles: vec![],
@@ -1542,7 +1564,32 @@ impl Interp {
                 }
             }
         }
+        if self.transcript.is_some() {
+            self.snapshot();
+        }
         Ok(())
+    }
+
+    /// C20: everything observable that could depend on hashing or addresses.
+    fn snapshot(&mut self) {
+        let world = self.world.as_ref().unwrap();
+        let mut line = String::new();
+        {
+            let ents = world.entities();
+            let joined: Vec<Entity> = (&*ents).join().collect();
+            line.push_str(&format!("ents={:?};", joined));
+        }
+        for kind in self.kinds.iter() {
+            let items = with_kind!(*kind, st_join_items(world));
+            line.push_str(&format!("{:?}={:?};", kind, items));
+        }
+        for (k, kind) in self.kinds.iter().enumerate() {
+            if let Some(r) = self.readers[k].as_mut() {
+                let evs = with_kind!(*kind, st_events(world, r));
+                line.push_str(&format!("ev{:?}={:?};", kind, evs));
+            }
+        }
+        self.transcript.as_mut().unwrap().push(line);
     }
 
     /// Drops the world and checks the ledger (C08).
